@@ -34,7 +34,7 @@ run() { # name, expected exit status, expected substring of the replayed predica
 
 git -C /repo worktree add -q --detach "$W" HEAD || exit 2
 trap 'git -C /repo worktree remove --force "$W"; cd "$here" && ./check C17 >/dev/null 2>&1' EXIT
-want=${*:-fill layout one-parent override-dup loop-index base}
+want=${*:-fill layout one-parent override-dup include-type by-position one-sided loop-index base}
 for m in $want; do
 case $m in
 fill)  # fillValueSlice: ignore defaults
@@ -55,6 +55,15 @@ override-dup)  # back to EachAttribute(true, …): an overriding attribute laid 
 			switch attr.Kind() {''', '''		t.EachAttribute(true, func(attr px.Attribute) {
 			switch attr.Kind() {''')"
   run "mutant overriding attribute laid out twice" 1 'new-rejected|get-wrong|fault|pos-named-differ' ;;
+include-type)  # undo 2607361: equality_include_type => false ignored again
+  edit types/objectvalue.go "s.replace('''	if equalityIncludesType(o.typ) || equalityIncludesType(ov.typ) {''', '''	if true || equalityIncludesType(o.typ) || equalityIncludesType(ov.typ) {''')"
+  run "mutant equality_include_type ignored" 1 'equality-include-type' ;;
+by-position)  # cross-type comparison by position instead of by name
+  edit types/objectvalue.go "s.replace('''		j, ok := oi.NameToPos()[ai.Attributes()[i].Name()]''', '''		j, ok := i, i < len(oi.Attributes())''')"
+  run "mutant cross-type equality compares by position" 1 'equality-wrong|equality-include-type|fault' ;;
+one-sided)  # only the receiver's type has to leave the type out (asymmetric Equals)
+  edit types/objectvalue.go "s.replace('''	if equalityIncludesType(o.typ) || equalityIncludesType(ov.typ) {''', '''	if equalityIncludesType(o.typ) {''')"
+  run "mutant cross-type equality looks at the receiver's flag only" 1 'equality-wrong' ;;
 loop-index)  # harmless: iterate attributes by index
   edit types/objectvalue.go "s.replace('''	for i, v := range values {
 		attr := at[i]''', '''	for i := 0; i < len(values); i++ {
